@@ -352,7 +352,7 @@ func (w *World) applyNestedFacts(k *Kind, t *Term, used map[string]bool) *Term {
 				kf := w.Facts(ck)
 				t = t.Map(func(a *Atom) *Term {
 					if a.Kind == "len" && strings.HasPrefix(a.Path, p+".") {
-						if c, ok := kf.Lens["$"+a.Path[len(p):]]; ok {
+						if c, ok := kf.Lens["$"+a.Path[len(p):]]; ok && w.parentBuildsChild(k, a.Path, c) {
 							used[fmt.Sprintf("len(%s)=%d", a.Path, c)] = true
 							return Const(c)
 						}
@@ -473,4 +473,34 @@ func overlapCheck(recs []*Rec) (string, bool) {
 		}
 	}
 	return "", false
+}
+
+// parentBuildsChild: every constructor of kind k leaves the byte slice at the
+// nested path (a field of a struct held by value) allocated with c bytes. A
+// child's own constructor facts say nothing about a parent that never calls it.
+func (w *World) parentBuildsChild(k *Kind, path string, c int64) bool {
+	ctors := w.Constructors(k)
+	if len(ctors) == 0 {
+		return false
+	}
+	for _, fi := range ctors {
+		cs := w.CtorSummary(fi)
+		if cs.State == nil || cs.In == nil {
+			return false
+		}
+		local := strings.Replace(path, "$", cs.Root, 1)
+		v, ok := cs.In.lookupPath(cs.State, local)
+		if !ok {
+			return false
+		}
+		bv, ok := v.(BufV)
+		if !ok {
+			return false
+		}
+		b := cs.State.bufs[bv.ID]
+		if b == nil || !b.Len.Sub(bv.Off).IsConst() || b.Len.Sub(bv.Off).C != c {
+			return false
+		}
+	}
+	return true
 }
